@@ -10,6 +10,24 @@ COMMON_TRUSTED = [
 NOT_APPLICABLE = {}
 
 PROPS = {
+    "C09": dict(
+        level_text="Proof: the clause database (assertMerge/Asserta/Assertz, Retract, Abolish, the per-call snapshot of clauses.call, piArg/compile's clause splitting) is modelled in Lean as a state machine whose OPEN ITERATORS are first-class, so histories are arbitrary interleavings (not only LIFO). For ALL histories from any state with unique clause identities the model of the repaired Retract produces exactly the outputs and final state of the logical-update-view specification Spec/LUV (C09_retract_refines_luv, with the identity invariant C09_inv proved by induction over histories); an open call's remaining clauses are always a suffix of its call-time list and its answers do not depend on the current database (C09_call_sees_snapshot, C09_call_answer_independent_of_db); asserta/assertz positions, abolish, permission errors on static procedures, 'an error changes nothing' and absence of Go panics are theorems; retractall/1 is derived from the regenerated bootstrap clauses. The pinned positional arithmetic is refuted by kernel-evaluated witnesses (C09_retract_positional_witness, C09_no_panic_witness). The model is tied to the Go code by the c09.hist stream (interleaved Solutions of one interpreter + nested failure-driven loops), judged by the executable specification.",
+        level_note="Trusted: Lean kernel; the hand-written model (correspondence-checked, not proved); harness canonicalisation; unification/renaming inside the model are shared by model and specification (the theorems do not depend on their properties); bodies of stored clauses are assumed to succeed exactly once (the stream stores facts and rules whose alternatives are `true`). The pinned variant looks the procedure up by indicator (the pinned Go code holds the *userDefined): differs only after abolish/1 of the predicate being retracted from, which the witnesses do not use.",
+        technique="Lean 4 refinement proof (model of the repaired code vs logical-update-view machine) by induction over arbitrary histories with an identity-uniqueness invariant + kernel-evaluated counterexamples for the pinned code + model/implementation correspondence",
+        lean_module="PrologVerif.Properties.C09",
+        ns="PrologVerif.C09",
+        streams=[dict(name="c09.hist", quick=5000, thorough=60000)],
+        rule="histories over the dynamic predicates p/1, q/2, r/0 (plus static s/1, member/2, built-in atom_length/2 for permission errors) with duplicate clauses, clauses with variables, rules and two-alternative rules, malformed clauses/indicators; realised (1) interleaved: up to 4 open calls/retracts as Solutions of one interpreter stepped in arbitrary order between asserta/assertz/abolish/retractall, (2) nested: findall over conjunctions of calls, retracts and updates of the predicate being enumerated, (3) mixed; generated from one PRNG (VERIF_SEED); non-trivial = at least one successful update happened while an iterator over the same predicate was open (interleaved: tracked by the harness; nested: a marker goal after the update was reached while an earlier iterator goal on that predicate was active); distinct = distinct case text",
+        trusted=[
+            "modelled (hand-written, correspondence-checked): engine/builtin.go Assertz, Asserta, assertMerge, Retract (repaired), Abolish, rulify; engine/clause.go clauses.call (snapshot), compile (number of clauses per term, callable check), clauses.indexOf, clause.is; engine/vm.go piArg, Arrive (unknown procedure)",
+            "regenerated from source on every run: the two clauses of retractall/1 in bootstrap.pl (Generated/Bootstrap.lean), compared with the clauses the retractall theorem is about",
+            "not modelled: execution of clause bodies (assumed to succeed once), Clause/2 (used only for the listings), the goroutine/channel machinery of Solutions (C12)",
+        ],
+        modelled={"hand_modelled": ["Assertz", "Asserta", "assertMerge", "Retract", "Abolish", "rulify", "clauses.call", "compile", "clauses.indexOf", "clause.is", "piArg", "Arrive"],
+                  "regenerated": ["bootstrap.pl retractall/1"], "observed_only": ["Clause", "FindAll", "Solutions"]},
+        assumptions=["stored clause bodies succeed exactly once (facts, `true`, `(true;true)`)",
+                     "variables of a stored clause are not bound later by the goal that asserted it (D10 is C10's subject; the generators assert ground or atomic-guarded clauses inside nested goals)"],
+    ),
     "C18": dict(
         level_text="Proof: the operator-table state machine (Op/validateOp/CurrentOp and the operators methods) is modelled in Lean; for ALL histories of op/3 calls with arbitrary argument terms the ISO invariant (C18_inv), atomicity of failed updates (C18_atomic), the exact effect of successful updates (C18_update_exact: latest wins, 0 removes, other classes kept) and exactness of current_op/3 (C18_current_op_exact) are kernel-checked theorems, the default table being regenerated from bootstrap.pl. The model is tied to the Go code by the c18.hist correspondence stream (impl vs model, plus an independent executable ISO specification as oracle, plus reader/writer probes).",
         level_note="Trusted: Lean kernel; the hand-written model of Op/validateOp/CurrentOp (checked by differential runs, not proved); harness canonicalisation; reader/writer use of the table is only probed, not modelled. Pattern variables of current_op/3 assumed pairwise distinct.",
